@@ -511,6 +511,7 @@ func btoi(b bool) int {
 func c09(c *Ctx) {
 	c09DoubleConnect(c)
 	c09Reconnect(c)
+	c09TwoClients(c)
 	for i := 0; i < c.Pick(10, 80); i++ {
 		ns := []int{1, 2, 3, 5, 8, 32}[c.R.N(6)]
 		per := []int{1, 10, 33, 100, 400}[c.R.N(5)]
@@ -521,5 +522,90 @@ func c09(c *Ctx) {
 			per = 20000 / ns
 		}
 		c09Session(c, ns, per, c.R.Pick("fast", "slow", "bursts"), 0)
+	}
+}
+
+// c09TwoClients: two clients in one process share nothing. A connects, is closed and connects again; then B connects;
+// both send numbered lines at the same time. Every line reaches the server of the client it was handed to - once, in
+// order - and no other.
+func c09TwoClients(c *Ctx) {
+	for round := 0; round < c.Pick(2, 8); round++ {
+		desc := "client A connects, Close, connects again; client B connects; both send 60 numbered lines concurrently"
+		c.Journal("C09 " + desc)
+		a, err := newSession(nil, nil)
+		if err != nil {
+			c.Res.Inconclusive++
+			continue
+		}
+		a.srv.WaitLines(2, 2*time.Second)
+		if !a.close() || !waitFor(func() bool { return !a.conn.Connected() }, 3*time.Second) || a.conn.Connect() != nil {
+			c.Res.Inconclusive++
+			continue
+		}
+		var srvA *memconn.Conn
+		select {
+		case srvA = <-a.conns:
+		case <-time.After(3 * time.Second):
+			c.Res.Inconclusive++
+			continue
+		}
+		b, err := newSession(nil, nil)
+		if err != nil {
+			c.Res.Inconclusive++
+			a.conn.Close()
+			continue
+		}
+		var wg sync.WaitGroup
+		for who, cn := range []*client.Conn{a.conn, b.conn} {
+			wg.Add(1)
+			go func(who int, cn *client.Conn) {
+				defer wg.Done()
+				for q := 0; q < 60; q++ {
+					cn.Privmsg("#c", fmt.Sprintf("%c-%d", 'A'+who, q))
+				}
+				cn.Raw("PING :end")
+			}(who, cn)
+		}
+		wg.Wait()
+		end := func(l string) bool { return l == "PING :end" }
+		okA := srvA.WaitLine(0, end, 10*time.Second) >= 0
+		okB := b.srv.WaitLine(0, end, 10*time.Second) >= 0
+		la, lb := srvA.Lines(), b.srv.Lines()
+		a.conn.Close()
+		b.close()
+		c.Res.Traces++
+		c.Res.Evaluations++
+		c.Dist("two-clients")
+		judge := func(name byte, lines []string) string {
+			next := 0
+			for i, l := range lines {
+				switch {
+				case strings.HasPrefix(l, "NICK ") || strings.HasPrefix(l, "USER ") || l == "PING :end":
+				case strings.HasPrefix(l, fmt.Sprintf("PRIVMSG #c :%c-", name)):
+					var q int
+					fmt.Sscanf(l[len("PRIVMSG #c :A-"):], "%d", &q)
+					if q != next {
+						return fmt.Sprintf("line %d on %c's server is %q: %c's lines are not there once each and in order", i, name, l, name)
+					}
+					next++
+				default:
+					return fmt.Sprintf("line %d on %c's server was never handed to %c: %q", i, name, name, trunc(l, 60))
+				}
+			}
+			if next != 60 {
+				return fmt.Sprintf("%d of the 60 lines handed to %c reached its server", next, name)
+			}
+			return ""
+		}
+		bad := judge('A', la)
+		if bad == "" {
+			bad = judge('B', lb)
+		}
+		if bad == "" && (!okA || !okB) {
+			bad = fmt.Sprintf("the end marker did not arrive (A: %v, B: %v)", okA, okB)
+		}
+		if bad != "" {
+			c.SpecFail("spec", desc, "", bad, map[string]interface{}{"op": "two-clients", "a_wire": la, "b_wire": lb})
+		}
 	}
 }
